@@ -57,7 +57,7 @@ class MapCache(MutableMapping):
 
 def run_world(aiu, w, prefix=(), expect=None, budget=30000):
     """w: dict(threads=[dict(life, m, offset, extra_key, delta, tmo)], script=(...), cache=kind)"""
-    sched = tx.Sched(prefix, expect, horizon=400.0, budget=budget)
+    sched = tx.Sched(prefix, expect, horizon=400.0, budget=min(budget, 8000))
     from mc import vloop as _vl
     _vl.CANCEL_ORDER['desc'] = bool(w.get('cancel_desc'))
     tx.bind_asyncio_seams(aiu, sched)
@@ -83,6 +83,8 @@ def run_world(aiu, w, prefix=(), expect=None, budget=30000):
                 await asyncio.sleep(0)
             elif beh in ('sleepD', 'sleepD_raise'):
                 await asyncio.sleep(D)
+            elif beh == 'sleep90':          # longer than the 60 s safety timeout of the waiters
+                await asyncio.sleep(90.0)
             if beh.endswith('raise'):
                 e = HarnessError(inv, id(task))
                 sched.log('inv_raise', inv, key)
@@ -545,6 +547,10 @@ def worlds(tier, prop):
                 [dict(life=la, m=1, offset=0.0, **kw), dict(life='L0', m=1, offset=0.0),
                  dict(life='L0', m=1, offset=offc)],
                 ['sleepD', 'sleepD', 'sleepD', 'ret0'], pb=1 if q else 2)
+    # a computation that outlasts the waiters' 60 s safety timeout (waiters must simply wait again)
+    for offb in (0.0, 30.0):
+        add(f'2t/L0/sleep90/offb{offb}', [dict(life='L0', m=2, offset=0.0), dict(life='L0', m=1, offset=offb)],
+            ['sleep90', 'ret0'], pb=1)
     # the computing caller is cancelled by its own timeout while its loop stays alive for a second caller
     for offb in (0.0, D / 2, D):
         add(f'2t/L2x/offb{offb}', [dict(life='L2x', m=2, offset=0.0, tmo=D / 2), dict(life='L0', m=1, offset=offb)],
